@@ -22,8 +22,8 @@ ASSUMPTIONS = [
 NSHARDS = {"quick": 32, "thorough": 64}
 BUDGET_S = {"quick": 240, "thorough": 2400}
 MIN_HITS = {
-    'quick': {"variant": 7001, "expect_accept": 2127, "expect_reject": 4809, "mutation_still_valid": 1935, "family_p2pk": 47, "family_p2pkh": 47, "family_multisig": 97, "lib_signed": 79, "with_separator": 141, "reversed_digest": 192, "legacy_flag": 96, "forkid_flag": 96},
-    'thorough': {"variant": 307653, "expect_accept": 110476, "expect_reject": 197176, "mutation_still_valid": 100876, "family_multisig": 4819, "lib_signed": 3933, "with_separator": 6889, "reversed_digest": 9600},
+    'quick': {"variant": 7097, "expect_accept": 2127, "expect_reject": 4905, "mutation_still_valid": 1935, "family_p2pk": 47, "family_p2pkh": 47, "family_multisig": 97, "lib_signed": 79, "with_separator": 141, "reversed_digest": 192, "legacy_flag": 96, "forkid_flag": 96},
+    'thorough': {"variant": 354592, "expect_accept": 106955, "expect_reject": 244564, "mutation_still_valid": 97355, "family_multisig": 4795, "lib_signed": 4232, "with_separator": 6859, "reversed_digest": 9600},
 }
 FLAGS = [0x01, 0x02, 0x03, 0x81, 0x82, 0x83, 0x41, 0x42, 0x43, 0xC1, 0xC2, 0xC3]
 
@@ -180,7 +180,8 @@ def defect_model_subscript(n_unlock, locking):
 
 def judge_single_oob(ctx, case):
     """SINGLE flag at an input index without a matching output: the library refuses to produce a preimage (C03/C10), so no spend
-    carrying such a signature may be accepted. The library itself is asked to sign; a refusal ends the scenario."""
+    carrying such a signature may be accepted. The claim is made only while the library refuses (asked first); a library that
+    implements the specification's own treatment instead is not judged here."""
     ctx.hit("single_without_matching_output")
     x = int(case["keys"][0], 16)
     pub = ec.ser(ec.mul_g(x), True)
@@ -189,7 +190,10 @@ def judge_single_oob(ctx, case):
     ctx.ev()
     sigs = []
     if "ok" in r:
-        sigs.append(("signature produced by the library", bytes.fromhex(r["ok"]["sig"])))
+        # the library does produce a signature for this flag / index: it implements the specification's own treatment (FORKID: hashOutputs
+        # of zeros; legacy: the historic constant) instead of refusing, which the sighash properties permit - nothing to claim here
+        ctx.note("SINGLE without matching output is signed rather than refused: no claim on the spend")
+        return
     # the historic "SIGHASH_SINGLE bug" digest 01 00..00 and its byte reversal
     for name, d in (("signature over the historic digest 0100..00", b"\x01" + b"\x00" * 31), ("signature over the digest 00..0001", b"\x00" * 31 + b"\x01")):
         e = ec.sign_det(x, d)
@@ -518,6 +522,17 @@ def judge(ctx, case):
     add("output appended", tx=tx_with(lambda t: t["outs"].append({"value": 7, "script": b"\x51"})))
     add("input appended", tx=tx_with(lambda t: t["ins"].append({"txid_wire": b"\x33" * 32, "vout": 0, "script": b"", "seq": 5})))
     add("declared value changed", val=value ^ 1)
+    # the spent output's value is NOT declared at all: nothing can be verified (a signature over value 0 included)
+    if flag & 0x40:
+        try:
+            d_0 = sc.digest(tx0, flag, 0)
+            s_0 = []
+            for si in signers:
+                e_ = ec.sign_det(sc.keys[si], d_0)
+                s_0.append(ec.der_encode(e_[0], e_[1]) + bytes([flag]))
+            variants.append(("value of the spent output not declared, signature over value 0", tx0, None, unlocking_of(s_0), sc.locking))
+        except sighash.NoSingleOutput:
+            pass
     add("declared value changed (high bit)", val=value ^ (1 << 63))
     # signature / key mutations
     s0 = sigs[0]
@@ -577,7 +592,12 @@ def judge(ctx, case):
         ctx.begin_variant = None
         t2 = {"version": tx["version"], "locktime": tx["locktime"], "ins": [dict(i) for i in tx["ins"]], "outs": tx["outs"]}
         t2["ins"][idx]["script"] = wire.detok(un)
+        undeclared = val is None
+        if undeclared:
+            val = 0
         exp = expected_accept(sc, tx, val, un, lk)
+        if undeclared:
+            exp = False
         if name == "high-S form of the same signature":
             # the statement is read the way the unchanged library behaves: s -> n-s is "a change to a signature" and makes it reject
             # (the library's verifier only accepts the low-S form, as C05 requires of every signature it produces)
@@ -585,7 +605,10 @@ def judge(ctx, case):
         noclaim = "(no claim)" in name
         ext = [None] * len(t2["ins"])
         ext[idx] = {"locking": wire.detok(lk).hex(), "satoshis": val}
-        rq = {"op": "interp", "tx": wire.tx_encode(t2).hex(), "idx": idx, "ext": ext, "max_steps": len(un) + len(lk) + 2, "mode": "run"}
+        if undeclared:
+            del ext[idx]["satoshis"]
+            ctx.hit("value_not_declared")
+        rq = {"op": "interp", "tx": wire.tx_encode(t2).hex(), "idx": idx, "ext": ext, "max_steps": len(un) + len(lk) + 2, "mode": "run", "after_finish": True}
         if (case["sep"] or sc.cond) and name in ("unmodified", "declared value changed", "signed over the subscript cut from the un-executed element list", "sequence of signed input changed"):
             # the same spend with the interpreter object copied (serde JSON / clone) right after the separator has been executed
             rq["mixed"] = {"k": len(un) + sc.sub_from, "via": "json" if rnd.random() < 0.7 else "clone"}
@@ -605,6 +628,12 @@ def judge(ctx, case):
             ctx.hit("mutation_still_valid")
         if name.startswith("signature over the byte-reversed"):
             ctx.hit("reversed_digest")
+        ae_ = r.get("ok", {}).get("after_error") if isinstance(r.get("ok"), dict) else None
+        if ae_ is not None:
+            ctx.ev()
+            ctx.hit("rejected_spend_asked_again")
+            if ae_["run_again"] != "err":
+                ctx.viol("a spend rejected with an error is reported as finished when run() is called again on the same interpreter", {"variant": name, "after": str(ae_)[:300]})
         got = None
         if "ok" in r and "run" in r["ok"]:
             run = r["ok"]["run"]
